@@ -787,4 +787,183 @@ theorem rle_roundtrip_runs (w : Nat) (xs : List Nat) (hv : ∀ x ∈ xs, x < 2 ^
     (by rw [hvals]; simp; omega)
   rw [rleDecode_runs w _ hvalid xs.length (by rw [hvals]; simp), hvals, List.take_left' rfl]
 
+
+/-! ### Dremel: record assembly inverts shredding -/
+
+
+/-- shape of a shredded value: non-empty, the first entry carries `r`, all later entries have
+`rep > k`, every entry has `dfn ≥ d` -/
+structure ShredShape (d k r : Nat) (es : List Entry) : Prop where
+  ne : ∃ e rest, es = e :: rest ∧ e.rep = r ∧ ∀ x ∈ rest, k < x.rep
+  dfn : ∀ x ∈ es, d ≤ x.dfn
+
+theorem shredShape_flatMap {α : Type} (f : α → List Entry) (d k : Nat) (xs : List α)
+    (h : ∀ x, ShredShape d (k + 1) (k + 1) (f x)) :
+    (∀ e ∈ xs.flatMap f, k < e.rep) ∧ (∀ e ∈ xs.flatMap f, d ≤ e.dfn) := by
+  constructor
+  · intro e he
+    obtain ⟨x, _, hx⟩ := List.mem_flatMap.mp he
+    obtain ⟨e0, rest, heq, hr, hrest⟩ := (h x).ne
+    rw [heq] at hx
+    rcases List.mem_cons.mp hx with h1 | h1
+    · subst h1; omega
+    · have := hrest e h1; omega
+  · intro e he
+    obtain ⟨x, _, hx⟩ := List.mem_flatMap.mp he
+    exact (h x).dfn e hx
+
+theorem shred_shape : ∀ (p : List Layer) (d k r : Nat) (v : ValOf p), ShredShape d k r (shred p d k r v) := by
+  intro p
+  induction p with
+  | nil => intro d k r v; exact ⟨⟨_, [], rfl, rfl, by simp⟩, by simp [shred]⟩
+  | cons l p ih =>
+    cases l with
+    | opt =>
+      intro d k r v
+      have key : ∀ v : Option (ValOf p), ShredShape d k r (shred (.opt :: p) d k r v) := by
+        intro v
+        cases v with
+        | none => exact ⟨⟨_, [], rfl, rfl, by simp⟩, by simp [shred]⟩
+        | some x =>
+          have := ih (d + 1) k r x
+          exact ⟨this.ne, fun e he => by have := this.dfn e he; omega⟩
+      exact key v
+    | rep =>
+      intro d k r v
+      have key : ∀ v : List (ValOf p), ShredShape d k r (shred (.rep :: p) d k r v) := by
+        intro v
+        cases v with
+        | nil => exact ⟨⟨_, [], rfl, rfl, by simp⟩, by simp [shred]⟩
+        | cons x xs =>
+          have h1 := ih (d + 1) (k + 1) r x
+          have h2 := shredShape_flatMap (shred p (d + 1) (k + 1) (k + 1)) (d + 1) k xs (fun y => ih _ _ _ y)
+          obtain ⟨e0, rest, heq, hr, hrest⟩ := h1.ne
+          show ShredShape d k r (shred p (d + 1) (k + 1) r x ++ xs.flatMap (shred p (d + 1) (k + 1) (k + 1)))
+          refine ⟨⟨e0, rest ++ xs.flatMap (shred p (d + 1) (k + 1) (k + 1)), by rw [heq]; rfl, hr, ?_⟩, ?_⟩
+          · intro y hy
+            rcases List.mem_append.mp hy with h | h
+            · have := hrest y h; omega
+            · exact h2.1 y h
+          · intro y hy
+            rcases List.mem_append.mp hy with h | h
+            · have := h1.dfn y h; omega
+            · have := h2.2 y h; omega
+      exact key v
+
+theorem groups_ne (lvl : Nat) (e : Entry) (es : List Entry) : groups lvl (e :: es) ≠ [] := by
+  cases es with
+  | nil => simp [groups]
+  | cons e' es =>
+    rw [groups]
+    split
+    · split <;> simp
+    · simp
+
+/-- a chunk (first entry, then entries with `rep > lvl`) followed by nothing or by an entry
+with `rep ≤ lvl` is cut off as one group -/
+theorem groups_chunk (lvl : Nat) (tail : List Entry) (ht : ∀ e ∈ tail.head?, e.rep ≤ lvl) :
+    ∀ (rest : List Entry) (e : Entry), (∀ x ∈ rest, lvl < x.rep) →
+      groups lvl (e :: rest ++ tail) = (e :: rest) :: groups lvl tail := by
+  intro rest
+  induction rest with
+  | nil =>
+    intro e _
+    cases tail with
+    | nil => simp [groups]
+    | cons t ts =>
+      have : t.rep ≤ lvl := ht t (by simp)
+      simp only [List.nil_append, List.cons_append]
+      rw [groups]
+      simp [show ¬ lvl < t.rep by omega]
+  | cons y ys ih =>
+    intro e h
+    have hy : lvl < y.rep := h y (by simp)
+    have := ih y (fun x hx => h x (by simp [hx]))
+    simp only [List.cons_append] at this ⊢
+    rw [groups]
+    simp only [hy, if_true, this]
+
+theorem mapOpt_map_some {α β : Type} (f : α → Option β) (g : β → α) (h : ∀ y, f (g y) = some y) (ys : List β) :
+    mapOpt f (ys.map g) = some ys := by
+  induction ys with
+  | nil => rfl
+  | cons y ys ih => simp [mapOpt, h y, ih]
+
+/-- cutting a concatenation of shredded elements gives the elements back -/
+theorem groups_flatMap (p : List Layer) (d k : Nat) (xs : List (ValOf p)) :
+    groups k (xs.flatMap (shred p d k k)) = xs.map (shred p d k k) := by
+  induction xs with
+  | nil => simp [groups]
+  | cons x xs ih =>
+    obtain ⟨e, rest, heq, _, hrest⟩ := (shred_shape p d k k x).ne
+    rw [List.flatMap_cons, List.map_cons, heq, groups_chunk k _ ?_ rest e hrest, ih]
+    intro t ht
+    cases xs with
+    | nil => simp at ht
+    | cons x' xs' =>
+      obtain ⟨e', rest', heq', hr', _⟩ := (shred_shape p d k k x').ne
+      rw [List.flatMap_cons, heq'] at ht
+      simp at ht; subst ht; omega
+
+/-- **record assembly inverts shredding**, for every layer path and every value -/
+theorem assemble_shred : ∀ (p : List Layer) (d k r : Nat) (v : ValOf p),
+    assemble p d k (shred p d k r v) = some v := by
+  intro p
+  induction p with
+  | nil => intro d k r v; rfl
+  | cons l p ih =>
+    cases l with
+    | opt =>
+      intro d k r v
+      have key : ∀ v : Option (ValOf p), assemble (.opt :: p) d k (shred (.opt :: p) d k r v) = some v := by
+        intro v
+        cases v with
+        | none =>
+          show assemble (.opt :: p) d k [⟨r, d, none⟩] = _
+          simp only [assemble, Nat.le_refl, if_true]; rfl
+        | some x =>
+          obtain ⟨e, rest, heq, _, _⟩ := (shred_shape p (d + 1) k r x).ne
+          have hd := (shred_shape p (d + 1) k r x).dfn e (by rw [heq]; simp)
+          show assemble (.opt :: p) d k (shred p (d + 1) k r x) = _
+          have := ih (d + 1) k r x
+          rw [heq] at this ⊢
+          simp only [assemble, show ¬ e.dfn ≤ d by omega, if_false, this, Option.map_some]; rfl
+      exact key v
+    | rep =>
+      intro d k r v
+      have key : ∀ v : List (ValOf p), assemble (.rep :: p) d k (shred (.rep :: p) d k r v) = some v := by
+        intro v
+        cases v with
+        | nil =>
+          show assemble (.rep :: p) d k [⟨r, d, none⟩] = _
+          simp only [assemble, Nat.le_refl, if_true]; rfl
+        | cons x xs =>
+          obtain ⟨e, rest, heq, _, hrest⟩ := (shred_shape p (d + 1) (k + 1) r x).ne
+          have hd := (shred_shape p (d + 1) (k + 1) r x).dfn e (by rw [heq]; simp)
+          show assemble (.rep :: p) d k
+            (shred p (d + 1) (k + 1) r x ++ xs.flatMap (shred p (d + 1) (k + 1) (k + 1))) = _
+          have hg : groups (k + 1) (shred p (d + 1) (k + 1) r x ++ xs.flatMap (shred p (d + 1) (k + 1) (k + 1)))
+              = shred p (d + 1) (k + 1) r x :: xs.map (shred p (d + 1) (k + 1) (k + 1)) := by
+            rw [heq, groups_chunk (k + 1) _ ?_ rest e hrest, groups_flatMap]
+            intro t ht
+            cases xs with
+            | nil => simp at ht
+            | cons x' xs' =>
+              obtain ⟨e', rest', heq', hr', _⟩ := (shred_shape p (d + 1) (k + 1) (k + 1) x').ne
+              rw [List.flatMap_cons, heq'] at ht
+              simp at ht; subst ht; omega
+          rw [heq] at hg ⊢
+          simp only [List.cons_append, assemble, show ¬ e.dfn ≤ d by omega, if_false]
+          simp only [List.cons_append] at hg
+          rw [hg, mapOpt, ← heq, ih (d + 1) (k + 1) r x,
+            mapOpt_map_some (assemble p (d + 1) (k + 1)) (shred p (d + 1) (k + 1) (k + 1)) (fun y => ih _ _ _ y)]
+          simp; rfl
+      exact key v
+
+/-- a whole column -/
+theorem assembleCol_shredCol (p : List Layer) (rows : List (ValOf p)) :
+    assembleCol p (shredCol p rows) = some rows := by
+  unfold assembleCol shredCol
+  rw [groups_flatMap, mapOpt_map_some (assemble p 0 0) (shred p 0 0 0) (fun y => assemble_shred p 0 0 0 y)]
+
 end ArrowModel.C05
